@@ -49,6 +49,10 @@ pub enum Kind {
     DeVariants,
     /// `ga::ga` assembled from the other shipped selections, crossovers, mutations, repairs
     GaVariants,
+    /// evaluation steps on prepared populations: 0..8 binary individuals, runs of equal
+    /// neighbours, a mix of evaluated and unevaluated ones (harness component + `evaluate` +
+    /// `update_best_individual`)
+    EvalMix,
 }
 
 pub const SHIPPED: [Kind; 21] = [
@@ -85,11 +89,12 @@ impl Kind {
             Kind::EsArchive => "es+archive",
             Kind::DeVariants => "de-variants",
             Kind::GaVariants => "ga-variants",
+            Kind::EvalMix => "evaluation-of-mixed-populations",
         }
     }
     pub fn family(self) -> Family {
         match self {
-            Kind::BinaryGa => Family::Bin,
+            Kind::BinaryGa | Kind::EvalMix => Family::Bin,
             Kind::PermSa | Kind::PermLs | Kind::PermIls | Kind::PermRs | Kind::PermRw => Family::Perm,
             Kind::AntSystem | Kind::Mmas => Family::Tsp,
             _ => Family::Real,
@@ -237,6 +242,44 @@ pub fn termination<P: Problem>(term: Term) -> (Box<dyn Condition<P>>, Arc<Atomic
         Term::Either { evals, iters } => LessThanN::evaluations(evals) | LessThanN::iterations(iters),
     };
     (Box::new(Counting { inner, tests: tests.clone(), trues: trues.clone() }), tests, trues)
+}
+
+// ---------------------------------------------------------------------------------------------
+// workload component: replaces the current population by a prepared one
+
+#[derive(Clone, Serialize)]
+pub struct MixedPopulation {
+    pub seed: u64,
+    pub max: usize,
+    pub in_loop: bool,
+}
+
+impl<P> Component<P> for MixedPopulation
+where
+    P: HProblem + VectorProblem<Element = bool>,
+{
+    fn execute(&self, problem: &P, state: &mut State<P>) -> ExecResult<()> {
+        let it = state.try_get_value::<Iterations>().unwrap_or(0) as u64;
+        let mut g = Gen::new(self.seed ^ (0x4D49_5845u64 << 8) ^ if self.in_loop { it + 1 } else { 0 });
+        let dim = problem.dimension();
+        let n = g.below(self.max + 1);
+        let mut pop: Vec<mahf::Individual<P>> = Vec::with_capacity(n);
+        for i in 0..n {
+            // runs of equal neighbours are the rule, not the exception
+            let solution: Vec<bool> = if i > 0 && g.chance(0.5) { pop[i - 1].solution().clone() } else { (0..dim).map(|_| g.chance(0.5)).collect() };
+            let ind = if g.chance(0.5) {
+                let f = problem.reference(&solution);
+                mahf::Individual::new(solution, mahf::SingleObjective::try_from(f).expect("harness objective is never NaN"))
+            } else {
+                mahf::Individual::new_unevaluated(solution)
+            };
+            pop.push(ind);
+        }
+        let mut pops = state.populations_mut();
+        let _ = pops.try_pop();
+        pops.push(pop);
+        Ok(())
+    }
 }
 
 // ---------------------------------------------------------------------------------------------
@@ -514,6 +557,15 @@ where
             },
             cond,
         ),
+        Kind::EvalMix => {
+            let max = c.pu("mix_max") as usize;
+            Ok(Configuration::builder()
+                .do_(Box::new(MixedPopulation { seed: c.seed, max, in_loop: false }))
+                .evaluate()
+                .update_best_individual()
+                .while_(cond, |b| b.do_(Box::new(MixedPopulation { seed: c.seed, max, in_loop: true })).evaluate().update_best_individual())
+                .build())
+        }
         other => Err(eyre::eyre!("harness: {other:?} is not a binary template")),
     }
 }
@@ -664,6 +716,9 @@ pub fn gen_case(g: &mut Gen, kind: Kind, o: &GenOpts) -> TCase {
             set("mutation_kind", g.below(3) as f64);
             set("boundary_kind", g.below(2) as f64);
             set("replacement_kind", g.below(3) as f64);
+        }
+        Kind::EvalMix => {
+            set("mix_max", (1 + g.below(8)) as f64);
         }
         Kind::Pso => {
             set("num_particles", (1 + g.below(12)) as f64);
